@@ -5,6 +5,7 @@ import (
 	"fmt"
 	"strings"
 
+	"github.com/buildbarn/bb-storage/pkg/blobstore/buffer"
 	"github.com/buildbarn/bb-storage/pkg/blobstore/local"
 	"github.com/prometheus/client_golang/prometheus"
 	dto "github.com/prometheus/client_model/go"
@@ -363,8 +364,18 @@ func c06MakeKeys(cfg c06Cfg, t *sim.Tape) []local.Key {
 }
 
 func newC06World(c *sim.RunCtx, cfg c06Cfg, keys []local.Key, seeds func() uint64) *c06World {
+	return newC06WorldResolvedBy(c, cfg, keys, seeds, nil)
+}
+
+// newC06WorldResolvedBy: with a non-nil resolver the record arrays resolve
+// block references through it (a real block list of the repository); the
+// harness resolver then only keeps the absolute block numbering.
+func newC06WorldResolvedBy(c *sim.RunCtx, cfg c06Cfg, keys []local.Key, seeds func() uint64, resolver local.BlockReferenceResolver) *c06World {
 	w := &c06World{c: c, cfg: cfg, keys: keys, history: make([]c06HistOp, 0, 12)}
 	w.rs = newC06Resolver(c, cfg.Epoch0, seeds)
+	if resolver == nil {
+		resolver = w.rs
+	}
 	var inner local.LocationRecordArray
 	label := "c06mem"
 	if cfg.Dev {
@@ -372,9 +383,9 @@ func newC06World(c *sim.RunCtx, cfg c06Cfg, keys []local.Key, seeds func() uint6
 		bytes := int64(cfg.Size) * local.BlockDeviceBackedLocationRecordSize
 		sectors := (bytes + int64(cfg.Sector) - 1) / int64(cfg.Sector)
 		w.disk = sim.NewDisk("index", cfg.Sector, sectors)
-		inner = local.NewBlockDeviceBackedLocationRecordArray(w.disk, w.rs)
+		inner = local.NewBlockDeviceBackedLocationRecordArray(w.disk, resolver)
 	} else {
-		inner = local.NewInMemoryLocationRecordArray(cfg.Size, w.rs)
+		inner = local.NewInMemoryLocationRecordArray(cfg.Size, resolver)
 	}
 	w.arr = &c06Array{inner: inner, size: cfg.Size, c: c}
 	w.klm = local.NewHashingKeyLocationMap(w.arr, cfg.Size, cfg.HashInit, uint32(cfg.MaxGet), cfg.MaxPut, label)
@@ -866,6 +877,130 @@ func c06Random(c *sim.RunCtx) {
 	}
 }
 
+// ---- real block lists as resolvers ----
+//
+// The index's "block which has not been released" is decided by the
+// BlockReferenceResolver the record array is given. In the repository that is
+// a block list (volatile or persistent): here the real lists resolve the
+// references, driven through their own API (PushBack, PopFront, Put with its
+// finalizer - which is what starts epochs in the persistent list -, sync
+// notifications), over the in-memory block allocator. The transition oracle
+// is the same as in the random profile; the harness resolver only keeps the
+// absolute block numbering.
+func c06RealLists(c *sim.RunCtx) {
+	t := c.T.Plan
+	cfg := drawC06Cfg(t)
+	cfg.BigOff = false
+	keys := c06MakeKeys(cfg, t)
+	persistent := t.Chance(1, 2)
+	maxLive := t.Range(1, 5)
+	nOps := t.Range(8, 70)
+	c.Sample["case"] = fmt.Sprintf("%s real-list persistent=%v maxlive=%d ops=%d", cfg, persistent, maxLive, nOps)
+	c.Sim(sim.SimOpts{MaxSteps: 1000000}, func(s *rt.Sched) {
+		c.Note("case %s real-list persistent=%v maxlive=%d ops=%d", cfg, persistent, maxLive, nOps)
+		const blockSize = 64
+		alloc := local.NewInMemoryBlockAllocator(blockSize)
+		var bl local.BlockList
+		var pbl *local.PersistentBlockList
+		if persistent {
+			pbl, _ = local.NewPersistentBlockList(alloc, cfg.Epoch0, nil)
+			bl = pbl
+		} else {
+			bl = local.NewVolatileBlockList(alloc)
+		}
+		restore := installDetRandom(int64(c06U64(t) >> 1))
+		defer restore()
+		w := newC06WorldResolvedBy(c, cfg, keys, func() uint64 { return 0 }, bl)
+		push := func() {
+			if err := bl.PushBack(); err != nil {
+				panic(sim.HarnessError{Msg: "C06 real lists: PushBack failed: " + err.Error()})
+			}
+			w.push(false, true)
+		}
+		release := func() {
+			bl.PopFront()
+			w.release(true)
+		}
+		for i, n := 0, t.Range(1, maxLive); i < n; i++ {
+			push()
+		}
+		var all []c06Loc
+		lastKey := 0
+		for i := 0; i < nOps && !c.Failed(); i++ {
+			switch t.Pick(12, 2, 2, 2, 3) {
+			case 0: // store: write through the block list (its finalizer starts epochs), then index the location
+				k := t.Choose(cfg.Keys)
+				if t.Chance(1, 6) {
+					k = lastKey
+				}
+				lastKey = k
+				var l c06Loc
+				if len(all) > 0 && t.Chance(1, 6) {
+					// a location handed out before (possibly to another key), still live
+					var live []c06Loc
+					for _, x := range all {
+						if x.Abs >= w.rs.released {
+							live = append(live, x)
+						}
+					}
+					if len(live) > 0 {
+						l = live[t.Choose(len(live))]
+						c.Count("probe_put_equal_location", 1)
+						w.put(k, l, true)
+						continue
+					}
+				}
+				idx := w.rs.live() - 1
+				if t.Chance(1, 3) {
+					idx = t.Choose(w.rs.live())
+				}
+				size := int64(t.Choose(5))
+				if !bl.HasSpace(idx, size) {
+					continue
+				}
+				data := make([]byte, size)
+				off, err := bl.Put(idx, size)(buffer.NewValidatedBufferFromByteSlice(data))()
+				if err != nil {
+					panic(sim.HarnessError{Msg: "C06 real lists: block Put failed: " + err.Error()})
+				}
+				l = c06Loc{Abs: w.rs.released + idx, Off: off, Size: size}
+				all = append(all, l)
+				c.Count("probe_real_list_store", 1)
+				w.put(k, l, true)
+			case 1:
+				release()
+				if !c.Failed() && w.rs.live() == 0 {
+					push()
+				}
+			case 2:
+				if w.rs.live() >= maxLive {
+					release()
+				}
+				if !c.Failed() {
+					push()
+				}
+			case 3:
+				if pbl != nil {
+					// a sync round: later writes start new epochs
+					w.neutral(c06HistOp{Kind: 'e'}, func() {
+						pbl.NotifySyncStarting(false)
+						pbl.NotifySyncCompleted()
+					}, true)
+					c.Count("probe_real_list_sync_round", 1)
+				}
+			case 4:
+				w.getFaulted(t.Choose(cfg.Keys))
+			}
+		}
+		if persistent {
+			c.Stats["c06_runs_real_persistent"]++
+		} else {
+			c.Stats["c06_runs_real_volatile"]++
+		}
+	})
+	c.Nontrivial = true
+}
+
 // ---- exhaustive prologue ----
 //
 // For every listed (table size <= 5, get attempts, put attempts) and both
@@ -1038,7 +1173,8 @@ func init() {
 		Prop:  "C06",
 		Level: "exploration",
 		Profiles: []sim.Profile{
-			{Name: "random", Weight: 1, Fn: c06Random},
+			{Name: "random", Weight: 3, Fn: c06Random},
+			{Name: "real-block-lists", Weight: 2, Fn: c06RealLists},
 			{Name: "exhaustive-small", Prologue: true, Fn: c06Exhaustive},
 		},
 		Components: map[string][]string{
